@@ -170,6 +170,43 @@ pub fn generate(thorough: bool, seed: u64, em: &mut Emitter) {
             }
         }
         em.case("issue", case);
+        if i % 25 == 7 {
+            // a last token that spells an array index non-canonically ("01", "+1"): Rust's usize::from_str accepts it, a JSON
+            // pointer does not have it. Whether the issuer takes it or refuses it is not fixed by the property; but a path it
+            // takes is a disclosable claim like any other: hidden in the SD-JWT, reported to the holder (as /arr/1)
+            let nodes = gen::all_nodes(&claims);
+            let arrays: Vec<&gen::TPath> = nodes.iter().filter(|p| gen::resolve(&claims, p).map_or(false, |v| v.as_array().map_or(false, |a| !a.is_empty()))).collect();
+            if let Some(a) = arrays.first() {
+                let len = gen::resolve(&claims, a).unwrap().as_array().unwrap().len();
+                let idx = r.below(len);
+                let spelled = if r.chance(1, 2) { format!("0{}", idx) } else { format!("+{}", idx) };
+                let mut m: gen::TPath = (*a).clone();
+                m.push(Tok::Idx(idx));
+                let mut c = issue_case(&claims, &[m], None, false, "HS256", 1);
+                c["paths"] = json!([format!("{}/{}", gen::render(a), spelled)]);
+                c["expect_issue"] = json!("ok_or_err");
+                c["tag"] = json!("noncanonical_last_index");
+                c["nontrivial"] = json!(true);
+                em.case("issue", c);
+            }
+        }
+        if i % 25 == 11 && claims.get("exp").is_none() {
+            // expires_in_seconds(n) writes the claim exp; that claim can be made disclosable like any other
+            let mut marks2 = marks.clone();
+            marks2.retain(|p| p.first() != Some(&Tok::Key("exp".to_string())));
+            marks2.push(vec![Tok::Key("exp".to_string())]);
+            let mut c = issue_case(&claims, &marks2, if r.chance(1, 2) { Some(3) } else { None }, false, "HS256", 1 + r.below(2));
+            c["exp_in"] = json!(3600 + r.below(1000) as i64);
+            // the value of exp is the clock's: the triple is matched on path and name only
+            let mut triples = c["path_triples"].as_array().cloned().unwrap_or_default();
+            if let Some(last) = triples.last_mut() {
+                *last = json!(["/exp", "exp"]);
+            }
+            c["path_triples"] = json!(triples);
+            c["tag"] = json!("exp_disclosable_after_expires_in_seconds");
+            c["nontrivial"] = json!(true);
+            em.case("issue", c);
+        }
         if i % 40 == 3 {
             // claims that are not an object are outside the property; they are run for model fidelity only
             let root = r.pick(&[json!([1, 2]), json!(null), json!("s"), json!([{"a": 1}])]).clone();
@@ -178,6 +215,49 @@ pub fn generate(thorough: bool, seed: u64, em: &mut Emitter) {
             c["paths"] = json!(paths);
             c["expect_issue"] = json!("any");
             c["tag"] = json!("non_object_root");
+            em.case("issue", c);
+        }
+    }
+}
+
+/// Path spellings and claims at the edge of "valid marking", as issue cases for the properties that speak about what an
+/// issued SD-JWT hides and reports (C01 C06 C07): a non-canonical last array index, and the claim exp made disclosable
+/// after expires_in_seconds.
+pub fn generate_edge_paths(seed: u64, n: usize, em: &mut Emitter) {
+    let mut r = Rng::new(seed ^ 0xC14_ED6E);
+    for i in 0..n {
+        let mut rc = r.fork();
+        let r = &mut rc;
+        let claims = gen::gen_object(r, 2, 3, 1);
+        if i % 2 == 0 {
+            let nodes = gen::all_nodes(&claims);
+            let arrays: Vec<&gen::TPath> = nodes.iter().filter(|p| gen::resolve(&claims, p).map_or(false, |v| v.as_array().map_or(false, |a| !a.is_empty()))).collect();
+            if let Some(a) = arrays.first() {
+                let len = gen::resolve(&claims, a).unwrap().as_array().unwrap().len();
+                let idx = r.below(len);
+                let spelled = if r.chance(1, 2) { format!("0{}", idx) } else { format!("+{}", idx) };
+                let mut m: gen::TPath = (*a).clone();
+                m.push(Tok::Idx(idx));
+                let mut c = issue_case(&claims, &[m], None, false, "HS256", 1);
+                c["paths"] = json!([format!("{}/{}", gen::render(a), spelled)]);
+                c["expect_issue"] = json!("ok_or_err");
+                c["tag"] = json!("noncanonical_last_index");
+                c["nontrivial"] = json!(true);
+                em.case("issue", c);
+            }
+        } else if claims.get("exp").is_none() {
+            let mut marks = gen::gen_marking(r, &claims, false);
+            marks.retain(|p| p.first() != Some(&Tok::Key("exp".to_string())));
+            marks.push(vec![Tok::Key("exp".to_string())]);
+            let mut c = issue_case(&claims, &marks, if r.chance(1, 2) { Some(3) } else { None }, false, "HS256", 1 + r.below(2));
+            c["exp_in"] = json!(3600 + r.below(1000) as i64);
+            let mut triples = c["path_triples"].as_array().cloned().unwrap_or_default();
+            if let Some(last) = triples.last_mut() {
+                *last = json!(["/exp", "exp"]);
+            }
+            c["path_triples"] = json!(triples);
+            c["tag"] = json!("exp_disclosable_after_expires_in_seconds");
+            c["nontrivial"] = json!(true);
             em.case("issue", c);
         }
     }
